@@ -5,7 +5,7 @@ from vcheck import write_json, InfraError
 META = {
     "property_id": "C08",
     "level": "model_checking",
-    "technique": "TLA+ spec of Trie.Prove / VerifyProof over the structural trie model (Proof.tla over MPT.tla) checked by TLC for every trie, key and proof-node subset; the TLC verdict table replayed on trie.Prove / trie.VerifyProof with genuine node blobs; recorded 32-byte-key runs validated against ProofTrace.tla",
+    "technique": "TLA+ spec of Trie.Prove / VerifyProof over the structural trie model (Proof.tla over MPT.tla) checked by TLC for every trie, key and proof-node subset; the TLC verdict table replayed on trie.Prove / trie.VerifyProof with genuine node blobs; recorded 32-byte-key runs validated against ProofTrace.tla; recorded variable-length-key runs (prefix keys, empty key) validated against ProofKVTrace.tla",
     "text": "TLC enumerates every key-value set over small key universes (embedded and hashed nodes, extension nodes), every key (present or absent) and every proof set made of the trie's stored nodes plus at most one genuine node of a neighbouring trie, and checks soundness (value or error), completeness and the exact verdict (success iff the set contains the nodes Prove emits). Each row is executed on the real code: Prove's node set, VerifyProof for every node subset, every substitution of a node by the neighbouring trie's node at the same path, and mismatched roots; panics are violations. Random tries over 32-byte keys with random omissions / foreign nodes are recorded and every Prove / VerifyProof result is validated by TLC against the same operators.",
     "note": "Trusts TLC, triekit (key/value embedding, reference encoder used only for the root sanity check) and opaque injective hashes in the model (forged blobs that are not genuine nodes are outside the statement). The empty trie has no root node: Prove emits nothing and VerifyProof reports an error for it (modelled as such: EmptyInv); completeness is stated for non-empty tries.",
     "design_ref": "3.2 C08",
@@ -29,5 +29,11 @@ def run(ctx):
     ok, consumed, total, r = ctx.validate("trie/ProofTrace", tp, ntraces=s["traces"], timeout=T * 2)
     if not ok:
         ctx.reject_trace("trie/ProofTrace", tp, consumed, r)
-    return ctx.finish(rule="MC: all tries over 4 (8) keys of 2 (3) nibbles with two value sizes x all keys x all proof subsets (+ one neighbour node); R: the whole verdict table; V: random 32-byte-key tries",
-                      assumptions=["hashes opaque and injective in the model", "proof sets consist of genuine trie nodes", "fixed-length keys"])
+    # variable-length keys (strict prefixes, the empty key: values in branch value slots), key-value level spec
+    vp = os.path.join(ctx.scratch, "varlen.ndjson")
+    s, _ = ctx.drive(drv, ["-mode", "varlen", "-trace", vp, "-n", ctx.pick(60, 600)], name="c08-varlen", timeout=T)
+    ok, consumed, total, r = ctx.validate("trie/ProofKVTrace", vp, ntraces=s["traces"], timeout=T * 2)
+    if not ok:
+        ctx.reject_trace("trie/ProofKVTrace", vp, consumed, r)
+    return ctx.finish(rule="MC: all tries over 4 (8) keys of 2 (3) nibbles with two value sizes x all keys x all proof subsets (+ one neighbour node); R: the whole verdict table; V: random 32-byte-key tries; V2: random tries over variable-length keys (prefix keys, empty key) against ProofKV.tla",
+                      assumptions=["hashes opaque and injective in the model", "proof sets consist of genuine trie nodes", "structural model (MC, R, V) over fixed-length keys; variable-length keys are covered at the key-value level (ProofKV.tla) by trace validation only"])
